@@ -29,7 +29,7 @@ VARIABLES l,
                       \* not the automaton's last_ts field: "left without input for longer than its timeout")
 vars == << l, tbl, mT, sT, full, lastFrame, lastHello, lastNi, lastIn >>
 
-NoFull == [ms |-> 0, live |-> {}, es |-> 0, hto |-> 0 - 1, bto |-> 0 - 1, lasttx |-> 0]
+NoFull == [ms |-> 0, live |-> {}, es |-> 0, hto |-> 0 - 1, bto |-> 0 - 1, lasttx |-> 0, ni |-> << 0, 45 >>, r |-> << 0, 0 >>, begun |-> 0]
 
 TraceInit ==
   /\ l = 1 /\ tbl = {} /\ mT = << 0, 0, 0 >> /\ sT = << 0, 0, 0, 0 >>
@@ -54,7 +54,7 @@ Unset == 0 - 1000000000
 FullOf(ev) == [ms |-> ev.ms, live |-> LiveSet(ev), es |-> ev.es,
                hto |-> IF ev.hto = Unset THEN 0 - 1 ELSE ev.now + ev.hto,      \* absolute deadlines (ms), -1 = unset
                bto |-> IF ev.bto = Unset THEN 0 - 1 ELSE ev.now + ev.bto,
-               lasttx |-> ev.lasttx]
+               lasttx |-> ev.lasttx, ni |-> ev.ni, r |-> ev.r, begun |-> ev.begun]
 
 (* relative-clock mapping onto the state of TickPacing *)
 ClsHto(abs, now) == IF abs < 0 THEN "unset" ELSE IF abs <= now THEN "due" ELSE IF abs - now < 1000 THEN "soon" ELSE "late"
@@ -154,11 +154,24 @@ TTick ==
       mustEnd == had /\ full.ms # 0 /\ ev.now - lastFrame[1] >= 30000
       mustNot == had /\ nows - lastFrame[2] <= 29
       survivors == {e \in full.live : ~(nows > e.last + Expiry)}
+      \* C13 at the level of the tick: when the block deadline has passed in Pausing the block ends, however
+      \* late the tick is: the count follows the formula for the Hellos actually heard (a Hello sent in this
+      \* very tick marks enumeration as begun first) and the next Hello respects the load formula
+      pre == AbsOf(full, LiveSet(ev), ev.now)
+      blockEnds == TP!EsAfter(pre) = 1 /\ pre.bto = "due"
+      begunEff == full.begun = 1 \/ Len(ev.hellos) > 0
+      wantNi == NiNext(full.ni[2], full.r[1], full.r[2], begunEff)
   IN /\ ev.e = "tick"
+     /\ Chk("C13") => ((blockEnds /\ full.ni[1] = 0 /\ full.ni[2] >= ALPHA /\ full.ni[2] <= NMAX)
+                         => (ev.ni = << 0, wantNi >> /\ ev.hto # Unset /\ ev.hto >= HelloIntervalMin(wantNi)))
+     /\ (Primary = "C13" /\ blockEnds => TLCSet(2, TLCGet(2) \cup {<< "tick", full.r, full.ni, begunEff >>}))
      /\ Chk("C14") => /\ mustEnd => (ev.ms = 0 /\ ev.ctc = 0 /\ ev.live = << >>)
                       /\ mustNot => (ev.ms = full.ms /\ survivors \subseteq LiveSet(ev))
      /\ Chk("C16") => TableConsistent(ev) /\ (~mustEnd /\ mustNot => LiveSet(ev) = survivors)
-     /\ Chk("C12") => HellosOK(ev.hellos, 1, lastHello) /\ TickRefines(ev)
+     \* a Hello is justified by a SESSION (mapper, generation) that is not complete: a duplicate entry of a
+     \* session does not count
+     /\ Chk("C12") => /\ HellosOK(ev.hellos, 1, lastHello) /\ TickRefines(ev)
+                      /\ Len(ev.hellos) > 0 => (Unique(LiveSet(ev)) /\ Cardinality(LiveSet(ev)) = Len(ev.live))
      /\ (Primary = "C14" /\ had /\ full.ms # 0 => TLCSet(2, TLCGet(2) \cup {<< "tick", mustEnd, mustNot >>}))
      /\ (Primary = "C12" /\ Len(ev.hellos) > 0 => TLCSet(2, TLCGet(2) \cup {l}))
      /\ lastHello' = LastHelloAfter(ev.hellos, lastHello)
